@@ -221,6 +221,8 @@ def query_grid():
                 qs.append(f"query via={via} kind=request req={r}")
                 qs.append(f"query via={via} kind=response req={r}")
             qs.append(f"query via={via} kind=params")
+            for n in ("pricing", "result", "Pricing", "RESULT", "schema", "-"):
+                qs.append(f"query via={via} kind=schema name={n}")
         # the off-chain recovery of a request from its id (client/utils/query.go), served by a stub node
         for r in (r0, r1, req_id(0xC17, 2, 5, 0), req_id(0xC17, 2, 5, 1), req_id(0xC18, 1, 1, 0), req_id(0xC19, 1, 1, 0, 1)):
             qs.append(f"query via=client kind=request req={r}")
